@@ -291,6 +291,12 @@ def check_c10(chk, tier):
     r4q = vlib.tlc("MC_C10", "MC_C10.len4.cfg", workers=8, timeout=3000)
     chk.add_tlc(r4q)
     beh += [b for b in r4q.records.get("REPLAY", []) if len(b["sizes"]) == 4]
+    # long layouts: hundreds of members, 256 slots and more
+    rl = vlib.tlc("MC_C10", "MC_C10.long.cfg", workers=4, timeout=900)
+    chk.add_tlc(rl)
+    if len(rl.records.get("REPLAY", [])) < 5:
+        raise ToolError("MC_C10.long generated too few layouts")
+    beh += rl.records.get("REPLAY", [])
     if tier == "thorough":
         # all 1 082 401 sequences of length <= 4 against the true optimum (model checking only) ...
         r4 = vlib.tlc("MC_C10", "MC_C10.thorough.cfg", workers=12, timeout=3400, xmx="16g")
@@ -571,6 +577,46 @@ def _report_check(chk, tier, pid):
         if rec["k"] == "same":
             return ("nondeterministic-items:%s" % rec["cat"], "two renderings of the same findings differ: %s" % json.dumps(rec["findings"])[:300])
         return ("category-part-iff", "category parts present %s but categories with findings %s" % (rec.get("present"), rec.get("nonempty")))
+    if pid != "C13":
+        # the written file as the BINARY leaves it, with findings in exactly one category / two / all / none: a category
+        # part is present iff that category has findings (main() must hand every map to generate_report)
+        sb = vlib.build_solstat_bin()
+        cat = bindrive.extract_catalogue()
+        scratch2 = vlib.scratch_dir(pid + "b")
+        extra = []
+        try:
+            bindrive.make_witness_dir(os.path.join(scratch2, "w"), "W")
+            reports = os.path.join(scratch2, "reports")
+            os.makedirs(reports)
+            combos = [("vulnerabilities",), ("optimizations",), ("qa",), ("vulnerabilities", "qa"), ("optimizations", "qa"),
+                      ("vulnerabilities", "optimizations"), ("vulnerabilities", "optimizations", "qa"), ()]
+            for ci, combo in enumerate(combos):
+                cwd = os.path.join(scratch2, "cwd%d" % ci)
+                os.makedirs(cwd)
+                with open(os.path.join(cwd, "sel.toml"), "w") as f:
+                    f.write('path = "unused"\n')
+                    for c in bindrive.CATS:
+                        f.write("%s = [%s]\n" % (c, ", ".join(json.dumps(n) for n in (cat[c] if c in combo else []))))
+                code, err = bindrive.run_solstat(sb, cwd, ["--path", os.path.join(scratch2, "w"), "--toml", "sel.toml"])
+                rp = os.path.join(cwd, "solstat_report.md")
+                if code != 0 or not os.path.exists(rp):
+                    chk.violate("binary-report:run-failed:%s" % "+".join(combo), "solstat with patterns of %s selected: exit %s, report %s" % (
+                        combo, code, "missing" if not os.path.exists(rp) else "present"), {"combo": list(combo), "stderr": err[-200:]})
+                    continue
+                shutil.copy(rp, os.path.join(reports, "b%02d.md" % ci))
+            parsed = bindrive.parse_reports(hb, reports)
+            for ci, combo in enumerate(combos):
+                p = parsed.get("b%02d.md" % ci)
+                if p is None:
+                    continue
+                extra.append({"k": "file", "via": "binary", "selected": list(combo),
+                              "present": {c: bool(p.get("parts", {}).get(c)) for c in bindrive.CATS},
+                              "nonempty": {c: c in combo for c in bindrive.CATS}, "garbage": bool(p["garbage"])})
+        finally:
+            shutil.rmtree(scratch2, ignore_errors=True)
+        allrecs = vlib.read_ndjson(tpath) + extra
+        vlib.write_ndjson(tpath, allrecs)
+        chk.evaluations += len(extra)
     if pid == "C13":
         # only the determinism records matter
         recs = [r for r in vlib.read_ndjson(tpath) if r["k"] == "same"]
@@ -682,6 +728,19 @@ def _pipeline(chk, tier, pid, beh):
     if len(trees) > want:
         step = len(trees) // want
         trees = trees[vlib.seed() % step::step][:want]
+    # directed: files of the SAME byte length with different findings (c5 / c6), next to and below one another -- what is
+    # analysed must be the file itself, not something remembered under its size or its position in the listing
+    def nm(t):
+        return {"text": t, "sol": t.endswith(".sol"), "tsol": t.lower().endswith(".t.sol")}
+
+    def fl(t, c):
+        return {"kind": "file", "name": nm(t), "content": c}
+
+    def dr(t, es):
+        return {"kind": "dir", "name": nm(t), "tree": {"entries": es}}
+    trees = [{"entries": [fl("a.sol", "c5"), dr("sub", [fl("b.sol", "c6"), fl("c.sol", "c5")])]},
+             {"entries": [dr("one", [fl("Alpha.sol", "c5")]), dr("two", [fl("Beta.sol", "c6")])]},
+             {"entries": [fl("x.sol", "c6"), fl("y.sol", "c5"), dr("deep", [dr("er", [fl("z.sol", "c6")])])]}] + trees
     recs = pipeline.run_trees(chk, hb, sb, trees, cat, d)
     if not recs:
         raise ToolError("no pipeline runs")
@@ -947,6 +1006,10 @@ def _c18_execute(chk, sb, hist):
         inner = os.path.join(proj, "inner")
         os.makedirs(inner)
         shutil.copy(os.path.join(ROOT, "corpus", "packing.sol"), os.path.join(inner, "Deep.sol"))
+        # a flattened source (several version pragmas, directives after definitions) and odd-but-valid inputs: nothing an
+        # analysed file contains may make the run leave anything else behind
+        shutil.copy(os.path.join(ROOT, "corpus", "flattened.sol"), os.path.join(proj, "Flat.sol"))
+        shutil.copy(os.path.join(ROOT, "corpus", "unicode_idents.sol"), os.path.join(inner, "Ünï.sol"))
         with open(os.path.join(inner, "Broken.t.sol"), "wb") as f:
             f.write(b"contract Broken { function (")
         with open(os.path.join(proj, "notes.txt"), "wb") as f:
